@@ -738,10 +738,40 @@ def rule_literal_fallback(ctx, rep):
             return (AbsStr(label='d'), AbsStr(label='t')) if rec['get'] else None
         it.func_hooks[names['match_link_label'].qualname] = label
         it.func_hooks[names['get_link_label'].qualname] = getl
+        # any other scanner match_link_image calls (a label scanner split off from the lookup, say) either finds what
+        # it looks for or does not; a lookup it then does itself goes to the table below
+        from ..tokens import FoundSomething
+        for q in sorted(ctx.callgraph().edges.get(f.qualname, ())):
+            g = model.functions.get(q)
+            if g is None or g.cls is not None or g.modname != f.modname or g.qualname in it.func_hooks \
+                    or g.name in ('normalize_label',) or g is f:
+                continue
+            it.func_hooks[g.qualname] = (lambda interp, fi, args, kwargs, g=g:
+                                         FoundSomething() if interp.oracle.decide(None, 'scan:' + g.name) else None)
+
+        class Lookup(AbstractValue):
+            # the definitions table: a lookup succeeds or fails, and is remembered
+            def abs_getattr(self, interp, name):
+                from ..domains import _AbsBound
+                return _AbsBound(self, name)
+
+            def abs_method(self, interp, name, args, kwargs):
+                if name == 'get':
+                    rec['table'] = interp.oracle.decide(None, 'table-lookup-found')
+                    return FoundSomething() if rec['table'] else (args[1] if len(args) > 1 else None)
+                return Unknown('footnotes.' + name)
+
+            def abs_contains(self, interp, item):
+                rec['table'] = interp.oracle.decide(None, 'table-lookup-found')
+                return rec['table']
+
+            def abs_getitem(self, interp, idx):
+                return FoundSomething()
+        root = Obj(model.cls('block_token.Document'), {'footnotes': Lookup()})
         delim = Obj(model.cls('core_tokens.Delimiter'), {'type': Choice.pick(it, 'dtype', ['[', '![']), 'start': AbsInt('s'),
                                                          'number': AbsInt('n')})
         try:
-            r = it.call_function(f, [AbsStr(label='string'), AbsInt('offset'), delim, Unknown('root')], {})
+            r = it.call_function(f, [AbsStr(label='string'), AbsInt('offset'), delim, root], {})
         except Raised as e:
             return ('raise', e, rec)
         return ('ret', r, rec)
@@ -752,13 +782,13 @@ def rule_literal_fallback(ctx, rep):
         if r is None:
             # literal text: only after the shortcut lookup of the bracketed text was tried and failed, unless a
             # link label follows (then the full / collapsed forms decide)
-            if 'get' not in rec and not _label_follows(trace):
+            if 'get' not in rec and 'table' not in rec and not _label_follows(trace):
                 gave_up.append(trace)
             continue
         dt = r.attrs.get('dest_type') if isinstance(r, Obj) else None
-        if dt in ('full',) and not rec.get('label'):
+        if dt in ('full',) and not (rec.get('label') or rec.get('table')):
             bad.append(('full', trace))
-        if dt in ('collapsed', 'shortcut') and not rec.get('get'):
+        if dt in ('collapsed', 'shortcut') and not (rec.get('get') or rec.get('table')):
             bad.append((dt, trace))
         if dt == 'shortcut' and _label_follows(trace):
             wrong_form.append(trace)
